@@ -476,3 +476,123 @@ fn c19_spec_parse() {
     kani::cover!(matches!(&*r, Err((CFormatErrorType::UnsupportedFormatChar(_), 3))));
     kani::cover!(matches!(&*r, Err((CFormatErrorType::IncompleteFormat, _))));
 }
+
+// ---------------------------------------------------------------------------------------------
+// Padding helpers (modular: the fill string generator is replaced by a recorder that returns a
+// one-character marker, so that no String of symbolic length is ever built)
+
+static mut CFS_CALLS: u32 = 0;
+static mut CFS_CHAR: char = '\0';
+static mut CFS_NEEDED: usize = 0;
+
+fn compute_fill_recorder(fill_char: char, fill_chars_needed: usize) -> String {
+    unsafe {
+        CFS_CALLS += 1;
+        CFS_CHAR = fill_char;
+        CFS_NEEDED = fill_chars_needed;
+    }
+    if fill_chars_needed == 0 {
+        String::new()
+    } else {
+        String::from("#")
+    }
+}
+
+fn spec_with_width(width: Option<usize>, left: bool) -> CFormatSpec {
+    CFormatSpec {
+        mapping_key: None,
+        flags: if left { CConversionFlags::LEFT_ADJUST } else { CConversionFlags::empty() },
+        min_field_width: width.map(CFormatQuantity::Amount),
+        precision: None,
+        format_type: CFormatType::String(CFormatConversion::Str),
+        format_char: 's',
+    }
+}
+
+/// fill_string on one concrete text (so that its character count is concrete).
+fn fill_string_case(text: &'static str, chars: usize) {
+    let width: Option<usize> = kani::any();
+    let left: bool = kani::any();
+    let prefix: Option<usize> = kani::any();
+    if let Some(p) = prefix {
+        kani::assume(p <= 3);
+    }
+    let fill_char = if kani::any() { ' ' } else { '0' };
+    let spec = ManuallyDrop::new(spec_with_width(width, left));
+    unsafe {
+        CFS_CALLS = 0;
+    }
+    let out = ManuallyDrop::new(spec.fill_string(String::from(text), fill_char, prefix));
+    let shown = chars + prefix.unwrap_or(0);
+    let needed = match width {
+        Some(w) if w > shown => w - shown,
+        _ => 0,
+    };
+    unsafe {
+        assert!(CFS_CALLS == 1);
+        assert!(CFS_CHAR == fill_char);
+        // Python: pad to the field width counted in CHARACTERS, the sign/prefix already written counts too
+        assert!(CFS_NEEDED == needed);
+    }
+    let ob = out.as_bytes();
+    let tb = text.as_bytes();
+    if needed == 0 {
+        assert!(ob.len() == tb.len());
+    } else {
+        assert!(ob.len() == tb.len() + 1);
+        // '-' puts the padding on the right, otherwise it goes on the left
+        if left {
+            assert!(ob[ob.len() - 1] == b'#' && ob[0] == tb[0]);
+        } else {
+            assert!(ob[0] == b'#' && ob[1] == tb[0]);
+        }
+    }
+}
+
+// @ob id=C19.k.fill_string props=C19,C03 kind=bounded tier=quick timeout=600
+// @bound the texts "ab" and "é" (a two-byte character = ONE column); every width, '-' flag, fill character and 0-3 already written prefix characters
+// @clause width padding: the text is padded to the field width counted in characters (not bytes), characters of a sign/prefix already written count towards the width, the padding goes to the left - to the right with the '-' flag - and a width smaller than the text never truncates; no width makes it panic
+// @fns CFormatSpec::fill_string
+#[kani::proof]
+#[kani::unwind(10)]
+#[kani::stub(CFormatSpec::compute_fill_string, compute_fill_recorder)]
+#[kani::stub(alloc::fmt::format, fmt_concat2)]
+fn c19_fill_string() {
+    fill_string_case("ab", 2);
+    fill_string_case("\u{e9}", 1);
+}
+
+/// format!("{a}{b}") of two pieces: stand-in for alloc::fmt::format that goes through a fixed
+/// buffer writer (same text; avoids String growth of symbolic size inside core::fmt).
+fn fmt_concat2(args: std::fmt::Arguments<'_>) -> String {
+    struct B {
+        b: [u8; 8],
+        n: usize,
+    }
+    impl std::fmt::Write for B {
+        fn write_str(&mut self, s: &str) -> std::fmt::Result {
+            let by = s.as_bytes();
+            assert!(by.len() <= 8);
+            for i in 0..8 {
+                if i < by.len() {
+                    if self.n < 8 {
+                        self.b[self.n] = by[i];
+                    }
+                    self.n += 1;
+                }
+            }
+            Ok(())
+        }
+    }
+    let mut w = B { b: [0; 8], n: 0 };
+    let _ = std::fmt::write(&mut w, args);
+    assert!(w.n <= 8);
+    let mut out = String::with_capacity(8);
+    for i in 0..8 {
+        if i < w.n {
+            // pieces are valid UTF-8 copied byte-wise: rebuild through from_utf8 at the end
+        }
+    }
+    out.push_str(unsafe { std::str::from_utf8_unchecked(&w.b[..w.n]) });
+    out
+}
